@@ -237,6 +237,28 @@ def step (st : St) (line : String) : St × String :=
         (st, showE showPTrace (readCigar ((firstRef written).getD 0) (printOps ops)))
     | some (_, _, _, .error e) => (st, "ERR:" ++ e.toString)
     | none => (st, "bad-op")
+  | ["tset", i, k, v] =>
+    -- `alignment.trace[i, k] = v` in place
+    match i.toNat?, k.toNat?, parseEntry v with
+    | some i, some k, some v =>
+      match st.trace[i]? with
+      | some col => if k < col.length then ({ st with trace := st.trace.set i (col.set k v) }, "ok") else (st, "ERR:IndexError")
+      | none => (st, "ERR:IndexError")
+    | _, _, _ => (st, "bad-op")
+  | ["sset", k, sq] =>
+    -- `alignment.sequences[k] = <another sequence over the same alphabet>`
+    match k.toNat? with
+    | some k =>
+      let str := if sq == "_" then [] else sq.toList
+      match encode (st.alphs.getD k st.alph) str with
+      | some codes => if k < st.seqs.length then ({ st with seqs := st.seqs.set k codes }, "ok") else (st, "ERR:IndexError")
+      | none => (st, "bad-op")
+    | none => (st, "bad-op")
+  | ["tdel", a, b] =>
+    -- `alignment.trace = np.delete(alignment.trace, slice(a, b), axis=0)`
+    match a.toNat?, b.toNat? with
+    | some a, some b => ({ st with trace := st.trace.take a ++ st.trace.drop (Nat.max a b) }, "ok")
+    | _, _ => (st, "bad-op")
   | ["asbin", tree] =>
     match parseMTree tree.toList with
     | some (m, []) => match asBinary m with
